@@ -636,6 +636,12 @@ func (ex *Exec) mapDelete(st *State, m *types.Map, mv, k Term) {
 	had := and(not(eq(mv, intLit(0))), sel(sel(md, mv), k))
 	ex.set(st, compMapLen(m), ite(had, store(ml, mv, app(SInt, "-", sel(ml, mv), intLit(1))), ml))
 	ex.set(st, compMapDom(m), ite(eq(mv, intLit(0)), md, store(md, mv, store(sel(md, mv), k, tFalse))))
+	// a key that is still present keeps the length positive (instantiated at the candidate keys of this VC)
+	md2 := ex.get(st, compMapDom(m), arraySort(SInt, arraySort(ks, SBool)))
+	ml2 := ex.get(st, compMapLen(m), arraySort(SInt, SInt))
+	for _, c := range ex.instCands[ks] {
+		ex.assume(st, implies(and(not(eq(mv, intLit(0))), sel(sel(md2, mv), c)), app(SBool, ">=", sel(ml2, mv), intLit(1))))
+	}
 }
 
 func (ex *Exec) lookup(f *frame, st *State, x *ssa.Lookup) {
